@@ -462,11 +462,14 @@ def scene_anon(c):
         lines.append("%s.m%d = (%d); chk_i64((long)%s.m%d); chk_i64((char *)&%s.m%d - (char *)&s); chk_u64(__builtin_offsetof(struct %s_t, m%d));"
                      % ("s" if i % 2 else "(*p)", i, i * 3 + 1, "p[0]" if i % 3 == 0 else "s", i, "s" if i % 2 == 0 else "p[0]", i, f, i))
     lines.append("chk_u64(sizeof s);")
+    lines.append(FUNCNAME_CHECK)
     c.funcs.append("struct %s_t { %s };\nstatic void %s(void) {\n\t%s\n}" % (f, body_t, f, "\n\t".join(lines)))
     c.calls.append("%s();" % f)
     c.labels.add("anonymous-members")
 
 
+# the predefined identifier is an array of the function's name with its terminator (6.4.2.2): size, contents, last element
+FUNCNAME_CHECK = "chk_u64(sizeof __func__); chk_str(__func__); chk_i64(__func__[sizeof __func__ - 1]); { char fn_[sizeof __func__]; chk_u64(sizeof fn_); }"
 SS_DECLS = ["sizeof(enum { %(n)s = %(v)d })", "(int)(enum { %(n)s = %(v)d })%(v)d", "_Alignof(enum { %(n)s = %(v)d }) * %(v)d / _Alignof(int)",
             "sizeof(struct %(t)s { char c[%(v)d]; })", "sizeof *(struct %(t)s { char c[%(v)d]; } *)0", "sizeof (struct %(t)s { char c[%(v)d]; }){ { 0 } }",
             "sizeof(union %(t)s { char c[%(v)d]; int i; })", "sizeof(typeof(enum { %(n)s = %(v)d }))"]
@@ -504,6 +507,7 @@ def scene_stmt_scope(c):
         if d(st.integers(0, 2)) == 0:
             # the tag or constant can be declared afresh in the enclosing block only if the statement did not leak its own
             lines.append("{ %s; chk_i64(%s); }" % (("enum { %s_N = %d }" % (f, v + 1)) if "enum" in dec else "%s %s { char c[%d]; }" % ("union" if "union" in dec else "struct", tag, v + 1), use))
+    lines.append(FUNCNAME_CHECK)
     c.funcs.append("%s\nstatic void %s(void) {\n\t%s\n}" % (decls if outer_file else "", f, "\n\t".join(lines)))
     c.calls.append("%s();" % f)
     c.labels.add("statement-scope-declarations")
